@@ -22,6 +22,16 @@ Theorem C15_delegation_is_direct_calls : forall fuel cfg armed s1 m a b,
   (st, ar, match r with inl parts => inl (body_text m a parts) | inr p => inr p end).
 Proof. exact delegation_is_direct_calls. Qed.
 
+(* the provided methods whose body makes ONE required call with the same consuming receiver kind (p_rc2 and p_rc3 with
+   Rc<Self>, p_arc2 with Arc<Self>, p_val2 with self): the instance travels into the helper, the required method gets it
+   back, and everything observable is that of calling the required partner directly with the caller's argument *)
+Theorem C15_pair_delegation_is_one_direct_call : forall fuel cfg armed s1 m r a b,
+  pair_partner m = Some r -> armed <> 2 ->
+  eval_act (S fuel) cfg armed s1 m a b ActDefault =
+  let '(st, ar, res) := direct_calls fuel cfg armed s1 [(r, a)] in
+  (st, ar, match res with inl parts => inl (body_text m a parts) | inr p => inr p end).
+Proof. exact pair_delegation_is_one_direct_call. Qed.
+
 Theorem C15_body_calls_required_methods : forall a,
   length (body_calls a) = N.to_nat (a mod 4) /\
   forall c, In c (body_calls a) -> (fst c = 10 \/ fst c = 11) /\ snd c < 8.
